@@ -281,7 +281,22 @@ pub enum Form { S, M11, R, V, M }
 pub const ALL_FORMS: [Form; 5] = [Form::S, Form::M11, Form::R, Form::V, Form::M];
 
 pub fn opnd_strategy(ek: EK, scalar: bool, rows: usize, cols: usize, pool: Pool) -> BoxedStrategy<Opnd> {
-  proptest::collection::vec(ek.strategy(pool), rows * cols).prop_map(move |data| Opnd { scalar, rows, cols, data }).boxed()
+  // in a third of the operands one element is forced to 0 or 1 of its kind: the identity / absorbing elements are where value-dependent
+  // shortcuts live (0 ^ 0, x * 0, x / 1), and a uniform draw from even a small pool rarely puts them in both operands at once
+  (proptest::collection::vec(ek.strategy(pool), rows * cols), 0u8..6, any::<proptest::sample::Index>()).prop_map(move |(mut data, dice, ix)| {
+    if dice < 2 && !data.is_empty() { let i = ix.index(data.len()); if let Some(sp) = special_of(&data[i], dice == 0) { data[i] = sp; } }
+    Opnd { scalar, rows, cols, data }
+  }).boxed()
+}
+
+/// 0 (zero = true) or 1 of the same kind as `s`
+fn special_of(s: &Sc, zero: bool) -> Option<Sc> {
+  let v = if zero { 0.0 } else { 1.0 };
+  Some(match s {
+    Sc::U(b, _) => Sc::U(*b, if zero { 0 } else { 1 }), Sc::I(b, _) => Sc::I(*b, if zero { 0 } else { 1 }),
+    Sc::F64(_) => f64b(v), Sc::F32(_) => f32b(v as f32), Sc::R(..) => Sc::R(if zero { 0 } else { 1 }, 1), Sc::C(..) => Sc::C(f64::to_bits(v), f64::to_bits(0.0)),
+    _ => return None,
+  })
 }
 
 /// dims for a form: (rows, cols)
